@@ -183,7 +183,7 @@ def run(ctx):
     n = ctx.scale(450, 12000)
     cases = []          # (line, tree_tt, flags, small)
     seen = set()
-    budget_model = ctx.scale(7000, 600000)   # SHA-256 blocks the extracted model may hash (about 4 ms per block)
+    budget_model = ctx.scale(7000, 220000)   # SHA-256 blocks the extracted model may hash (about 4 ms per block)
     for i in range(n):
         t, shape = gen_case(r, ctx.thorough)
         nodes, nbytes, blocks = size_of(t)
